@@ -445,13 +445,17 @@ func (cs *connState) LookupFID(fid fid) (*fidRef, bool) {
 // the slot already it is closed, per the specification.
 func (cs *connState) InsertFID(fid fid, newRef *fidRef) {
 	cs.fidMu.Lock()
-	defer cs.fidMu.Unlock()
 	origRef, ok := cs.fids[fid]
-	if ok {
-		defer origRef.DecRef()
-	}
 	newRef.IncRef()
 	cs.fids[fid] = newRef
+	cs.fidMu.Unlock()
+
+	// Drop the replaced reference without holding fidMu: this may call
+	// File.Close, which must not hold up every other request on this
+	// connection.
+	if ok {
+		origRef.DecRef()
+	}
 }
 
 // Deletefid removes the given fid.
@@ -459,12 +463,15 @@ func (cs *connState) InsertFID(fid fid, newRef *fidRef) {
 // This simply removes it from the map and drops a reference.
 func (cs *connState) DeleteFID(fid fid) error {
 	cs.fidMu.Lock()
-	defer cs.fidMu.Unlock()
 	fidRef, ok := cs.fids[fid]
 	if !ok {
+		cs.fidMu.Unlock()
 		return linux.EBADF
 	}
 	delete(cs.fids, fid)
+	cs.fidMu.Unlock()
+
+	// As in InsertFID, File.Close is called without holding fidMu.
 	return fidRef.DecRef()
 }
 
